@@ -131,6 +131,24 @@ static void load_pair(int i)
 		a = vk_jwk_text(k->vk, 1, attr, NULL);
 		b = vk_jwk_text(k->vk, 0, attr, NULL);
 	}
+	/* what the key is for, said the way RFC 7517 provides (every fourth pair each): signer ["sign"] / checker ["verify"]; both
+	 * ["sign","verify"]; "use":"sig" -- a key labelled for exactly what it is used for works like an unlabelled one */
+	if (i % 4) {
+		json_t *ja = json_loads(a, 0, NULL), *jb = json_loads(b, 0, NULL);
+		if (i % 4 == 3) {
+			json_object_set_new(ja, "use", json_string("sig"));
+			json_object_set_new(jb, "use", json_string("sig"));
+		} else {
+			json_object_set_new(ja, "key_ops", i % 4 == 1 ? json_pack("[s]", "sign") : json_pack("[ss]", "sign", "verify"));
+			json_object_set_new(jb, "key_ops", i % 4 == 1 ? json_pack("[s]", "verify") : json_pack("[ss]", "sign", "verify"));
+		}
+		free(a);
+		free(b);
+		a = tok_jdump(ja, JSON_COMPACT);
+		b = tok_jdump(jb, JSON_COMPACT);
+		json_decref(ja);
+		json_decref(jb);
+	}
 	k->priv = jwks_create(a);
 	k->pub = jwks_create(b);
 	free(a);
